@@ -524,12 +524,22 @@ def check_error_discipline(env, rep, rule):
         return
     fns = [prog.bodies[k] for k in sorted(reachable(prog, [de.key])) if prog.bodies[k].kind in ("fn", "assoc") and not is_derived(prog.bodies[k])]
     n = 0
+    # the decoder's own fallible functions: their Err is a refusal of the input just like a failed read
+    fallible = {"discr(call(%s))" % short(x.key) for x in fns if x.locals[0]["t"].get("s", "").startswith(("std::result::Result<", "core::result::Result<"))}
+    n_local = 0
     for b in fns:
         rep.fn(b.key)
         exr = grammar.reads(env, b.key)
         for p in exr.paths:
             for i, t in enumerate(p):
-                if t[0] == "when" and t[1].startswith("discr(call(") and ("Read" in t[1]) and t[2] == "1":
+                if t[0] == "when" and t[1] in fallible and t[2] in ("1", "other:0"):
+                    n_local += 1
+                    rest = [x for x in p[i + 1:] if x[0] not in ("when",)]
+                    good = all(x[0] in ("end", "returns", "final") for x in rest) and rest and rest[-1] == ("end", "err")
+                    rep.check(rule, "%s|%s|error-propagated" % (b.pretty, t[1][11:-2].split("::")[-1]), good, "an error of %s is returned as an error" % t[1][11:-2].split("::")[-1],
+                              "%s goes on after %s has refused the input: the path ends %s (a malformed value would be accepted as whatever was parsed so far): %s" % (
+                                  b.pretty, t[1][11:-2], rest[-1][1] if rest else "?", fmt_path(p)[:300]), b.span)
+                if t[0] == "when" and t[1].startswith("discr(call(") and ("Read" in t[1]) and t[2] in ("1", "other:0"):
                     n += 1
                     rest = [x for x in p[i + 1:] if x[0] not in ("when",)]
                     good = all(x[0] in ("end", "returns") for x in rest) and rest and rest[-1] == ("end", "err")
@@ -544,3 +554,4 @@ def check_error_discipline(env, rep, rule):
                 rep.check(rule, "%s|%s|result-inspected" % (b.pretty, nm.split("::")[-1]), seen, "the Result of %s is branched on" % nm.split("::")[-1],
                           "the Result of %s in %s is never inspected (a read error would be ignored)" % (nm, b.pretty), t["span"])
     rep.floor(rule, "error edges of read calls in the AMF0 decoder", n, 8)
+    rep.floor(rule + ".local", "error edges of the decoder's own fallible functions", n_local, 5)
